@@ -161,6 +161,10 @@ Step(op, s, i, j, x, key) ==
     [] op \in DOMAIN VarOps -> {Set1(s, i, Mut(VarOps[op], s[i], s[j], key))}
     [] op \in DOMAIN InOps -> {Set1(s, i, Inner(InOps[op], s[i], x, key))}
     [] op = "get" -> {IF NonEmptyCont(s[j]) THEN Set1(s, i, LastElem(s[j])) ELSE s}      \* i = element of j (also of itself)
+    \* heldapp: the list obtained from variable i through the mutable accessor is kept, variable j becomes a copy of i, then an
+    \* element is appended through the kept reference: "changing the list obtained from one Variant through its mutable accessor
+    \* never changes any other Variant" - j keeps the list as it was when it was copied
+    [] op = "heldapp" -> {[s EXCEPT ![i] = Mut("applist", s[i], x, key), ![j] = <<"list", ConvTo("list", s[i])[2]>>]}
     [] op \in {"smoke", "nop"} -> {s}
 
 \* one-sided wildcard: the reference's "some string" matches every observed string, nothing else is relaxed
